@@ -296,6 +296,12 @@ func runCase(c Case) *ev.Failure {
 	connOf := map[int]diam.Conn{}
 	mux.HandleFunc("ALL", func(conn diam.Conn, m *diam.Message) {
 		if _, marked := u32(m, codeMarker); marked {
+			if ci, _ := u32(m, codeConn); ci%2 == 1 {
+				// a panic whose value is nil: with the semantics of the Go versions the library's
+				// go.mod names (go 1.20; this test binary sets GODEBUG panicnil=1) recover() returns nil for it
+				var none interface{}
+				panic(none)
+			}
 			panic("scripted handler panic")
 		}
 		a := m.Answer(2001)
@@ -698,7 +704,7 @@ func classify(c Case) (bool, []string) {
 
 var prop = ev.Register(&ev.Prop[Case]{
 	ID: "C15", Name: "isolation",
-	Rule: "Server.Serve on a memnet.Listener; 2..5 connections with 1..6 numbered requests (1 in 3 connections: the first handler requests CloseNotify); faults: a marked request whose handler panics, undecodable bytes (7 variants, two of them complete messages with a malformed member inside a grouped AVP), either of them optionally while a server-side Write of another goroutine is stuck in that connection's transport, EOF / reset at a message boundary or inside a message, at position 0..N of the connection's sequence; 0..3 temporary accept errors; a scripted global interleaving of open / feed actions, each optionally awaited (answer received / faulty transport closed) before the script continues; at the end every healthy connection must hold the answer to each of its requests, every faulty transport must be closed, undecodable input must have been offered to the ErrorReporter with that connection, a connection opened afterwards must be served and Serve must not have returned; non-trivial = a fault (or accept error) is scripted between two requests of a healthy connection",
+	Rule: "Server.Serve on a memnet.Listener; 2..5 connections with 1..6 numbered requests (1 in 3 connections: the first handler requests CloseNotify); faults: a marked request whose handler panics (with a string, or - on odd-numbered connections - with a nil value under GODEBUG panicnil=1), undecodable bytes (7 variants, two of them complete messages with a malformed member inside a grouped AVP), either of them optionally while a server-side Write of another goroutine is stuck in that connection's transport, EOF / reset at a message boundary or inside a message, at position 0..N of the connection's sequence; 0..3 temporary accept errors; a scripted global interleaving of open / feed actions, each optionally awaited (answer received / faulty transport closed) before the script continues; at the end every healthy connection must hold the answer to each of its requests, every faulty transport must be closed, undecodable input must have been offered to the ErrorReporter with that connection, a connection opened afterwards must be served and Serve must not have returned; non-trivial = a fault (or accept error) is scripted between two requests of a healthy connection",
 	Gen:  genCase, Run: runCase, Classify: classify, Attempts: 5,
 })
 
